@@ -142,6 +142,7 @@ def _replay_worker(args):
     os.makedirs(workdir, exist_ok=True)
     per_proc = opts.get("behaviours_per_process", 400)
     index = []           # trace line number (1-based) -> (behaviour index, step index)
+    sweeps = {}          # trace line number of a real-timer sweep step -> behaviour indices of its process
     nsteps = 0
     ncrash = 0
     ub_notes = set()
@@ -155,7 +156,8 @@ def _replay_worker(args):
         pos = 0
         while pos < len(behaviours):
             chunk = behaviours[pos:pos + per_proc]
-            d = D.Daemon(b, workdir, svcs, timeout=("1h" if timeout_on else None),
+            rt = opts.get("real_timeout")
+            d = D.Daemon(b, workdir, svcs, timeout=(("%d" % rt if rt else "1h") if timeout_on else None),
                          modules=opts.get("modules", ("iauth_xquery",)), rules=opts.get("rules"),
                          logs=opts.get("logs"))
             w(D.reset_record(svcs, timeout_on, cls=opts.get("cls")), -1, -1)
@@ -191,12 +193,27 @@ def _replay_worker(args):
                 rc, san, ub = d.close(wait=5)
                 ub_notes.update(ub)
                 continue
+            if rt:
+                # real-timer sweep: every client of this process has been withdrawn; wait until every request timer that
+                # was ever armed would have expired, then take one more (empty) step: it must print nothing
+                # (a timer that belongs to a finished or replaced request must never fire)
+                time.sleep(rt + 0.8)
+                rec = d.step({"e": "J", "shape": "drop", "form": "blank", "id": 0})
+                nsteps += 1
+                sweeps[line_no + 1] = [bi for (bi, _) in chunk]
+                w(rec, -2, -2)
+                if rec["e"] == "Crash":
+                    ncrash += 1
+                    rc, san, ub = d.close(wait=5)
+                    ub_notes.update(ub)
+                    continue
             rc, san, ub = d.close()
             ub_notes.update(ub)
             w({"e": "Eof", "exit": (rc if rc is not None else -9), "san": san[:600]}, -1, -1)
     with open(trace_path + ".idx", "w") as f:
         json.dump(index, f)
-    return {"trace": trace_path, "steps": nsteps, "crashes": ncrash, "ubsan": sorted(ub_notes), "lines": line_no}
+    return {"trace": trace_path, "steps": nsteps, "crashes": ncrash, "ubsan": sorted(ub_notes), "lines": line_no,
+            "sweeps": sweeps}
 
 
 def replay(ctx, behaviours, svcs, timeout_on=True, nproc=6, tag="r", **opts):
@@ -323,11 +340,53 @@ def report(ctx, findings, behaviours, svcs, own_conjuncts, timeout_on=True, tabl
         ctx.note("conjunct %s (owned by another check) failed on %d steps of this run" % (c, n))
 
 
+def resolve_sweeps(ctx, findings, results, behaviours, svcs, own, timeout_on, plan):
+    """A violation at a real-timer sweep step (bi = -2) belongs to one of the behaviours of that daemon process: each
+    of them is replayed alone on a fresh daemon (with its own sweep); those that reproduce it are reported."""
+    rest = [f for f in findings if f["bi"] != -2]
+    sw = [f for f in findings if f["bi"] == -2 and f["kind"] == "V" and set(f["conjuncts"]) & set(own)]
+    if not sw:
+        return rest
+    cands = []
+    for f in sw:
+        for r in results:
+            if r["trace"] == f["trace"]:
+                cands += r["sweeps"].get(f["l"], r["sweeps"].get(str(f["l"]), []))
+    cands = sorted(set(cands))[:80]
+    ctx.note("real-timer sweep printed something; replaying %d behaviours of the affected processes one by one" % len(cands))
+    opts = dict(plan.opts, behaviours_per_process=1)
+    res2 = replay(ctx, [behaviours[bi] for bi in cands], svcs, timeout_on, nproc=12, tag=plan.name + "-sweep", **opts)
+    f2 = validate_all(ctx, res2)
+    n = 0
+    for g in f2:
+        if g["kind"] != "V" or g["bi"] != -2 or not (set(g["conjuncts"]) & set(own)):
+            continue
+        # which behaviour: the only one of that process
+        for r in res2:
+            if r["trace"] == g["trace"]:
+                bis = r["sweeps"].get(g["l"], [])
+                if bis and n < 4:
+                    ev = behaviours[cands[bis[0]]]
+                    got = trace_line(g["trace"], g["l"])
+                    n += 1
+                    ctx.violation("after every client had been withdrawn and the request timeout (%ss, real timer) had passed, the "
+                                  "daemon printed %s; history [%s]" % (plan.opts.get("real_timeout"), got.get("o") if got else "?", hist_short(ev)),
+                                  "+".join(sorted(set(g["conjuncts"]) & set(own))), "sweep: " + hist_short(ev),
+                                  {"kind": "iauth-history", "table": plan.table, "svcs": svcs, "timeout_on": timeout_on, "events": ev,
+                                   "failing_step": len(ev), "observed": got, "opts": dict(plan.opts)})
+    return rest
+
+
 def replay_file(ctx, body, own_conjuncts, crash_is_own=False):
     """Re-run a recorded violation (vcheck --replay)."""
     rp = body["replay"]
     f, recs = run_single(ctx, rp["events"], rp["svcs"], rp.get("timeout_on", True), **rp.get("opts", {}))
     beh = [rp["events"]]
+    for g in f:
+        if g["kind"] == "V" and g["bi"] == -2 and set(g["conjuncts"]) & set(own_conjuncts):
+            ctx.violation("real-timer sweep printed something (replay)", "+".join(sorted(set(g["conjuncts"]) & set(own_conjuncts))),
+                          body["signature"], rp)
+    f = [g for g in f if g["bi"] != -2]
     report(ctx, f, beh, rp["svcs"], own_conjuncts, rp.get("timeout_on", True), table=rp.get("table"),
            crash_is_own=crash_is_own, **rp.get("opts", {}))
     ctx.cov["evaluations"] = len(recs)
@@ -341,8 +400,9 @@ class Plan:
     """One model configuration + how much of it is replayed."""
 
     def __init__(self, name, table, emit_mod=1, simulate=None, depth=40, transform=None, opts=None, timeout=1500,
-                 workers=16, tail=True, **mc):
+                 workers=16, tail=True, also=(), **mc):
         self.tail = tail
+        self.also = also          # [(every n-th behaviour, replay options)]: extra replays of a subsample, e.g. real timers
         self.name, self.table, self.emit_mod, self.simulate, self.depth = name, table, emit_mod, simulate, depth
         self.transform, self.opts, self.mc, self.timeout, self.workers = transform, opts or {}, mc, timeout, workers
 
@@ -411,11 +471,23 @@ def standard(ctx, plans, own, crash_is_own=False, need=()):
         t2 = time.time()
         findings = validate_all(ctx, res)
         t3 = time.time()
+        findings = resolve_sweeps(ctx, findings, res, behaviours, svcs, own, timeout_on, plan)
         report(ctx, findings, behaviours, svcs, own, timeout_on, table=plan.table, crash_is_own=crash_is_own, **plan.opts)
         st = trace_stats(res)
         for k, v in st.items():
             total_stats[k] = total_stats.get(k, 0) + v
         steps = sum(x["steps"] for x in res)
+        for (nth, opts2) in plan.also:
+            sub = nth(behaviours) if callable(nth) else behaviours[::nth]
+            p2 = Plan(plan.name + "-also", plan.table, opts=opts2, **plan.mc)
+            res2 = replay(ctx, sub, svcs, timeout_on, tag=p2.name, **opts2)
+            f2 = validate_all(ctx, res2)
+            f2 = resolve_sweeps(ctx, f2, res2, sub, svcs, own, timeout_on, p2)
+            report(ctx, f2, sub, svcs, own, timeout_on, table=plan.table, crash_is_own=crash_is_own, **opts2)
+            steps += sum(x["steps"] for x in res2)
+            ctx.cov["traces_validated_against_impl"] += len(sub)
+            ctx.note("plan %s: %d behaviours replayed again with %s: %d findings" % (plan.name, len(sub), opts2, len(f2)))
+            res = res + res2
         ctx.cov["evaluations"] += steps
         ctx.cov["traces_validated_against_impl"] += len(behaviours)
         for b in behaviours:
